@@ -44,9 +44,14 @@ impl de::Error for TokError {
 // ------------------------------------------------------------------ recorder
 pub struct Recorder {
     pub toks: Vec<Tok>,
+    /// what `is_human_readable()` answers (self-describing binary formats such as CBOR or MessagePack say no)
+    pub human: bool,
 }
 pub fn to_tokens<V: Serialize>(v: &V) -> Result<Vec<Tok>, TokError> {
-    let mut r = Recorder { toks: Vec::new() };
+    to_tokens_as(v, true)
+}
+pub fn to_tokens_as<V: Serialize>(v: &V, human: bool) -> Result<Vec<Tok>, TokError> {
+    let mut r = Recorder { toks: Vec::new(), human };
     v.serialize(&mut r)?;
     Ok(r.toks)
 }
@@ -65,6 +70,9 @@ impl<'a> ser::Serializer for &'a mut Recorder {
     type SerializeMap = ser::Impossible<(), TokError>;
     type SerializeStruct = &'a mut Recorder;
     type SerializeStructVariant = ser::Impossible<(), TokError>;
+    fn is_human_readable(&self) -> bool {
+        self.human
+    }
     fn serialize_bool(self, v: bool) -> Result<(), TokError> {
         self.toks.push(Tok::Bool(v));
         Ok(())
@@ -156,9 +164,13 @@ impl<'a> ser::SerializeStruct for &'a mut Recorder {
 pub struct Replayer<'t> {
     toks: &'t [Tok],
     pos: usize,
+    human: bool,
 }
 pub fn from_tokens<'t, V: de::Deserialize<'t>>(toks: &'t [Tok]) -> Result<V, TokError> {
-    let mut r = Replayer { toks, pos: 0 };
+    from_tokens_as(toks, true)
+}
+pub fn from_tokens_as<'t, V: de::Deserialize<'t>>(toks: &'t [Tok], human: bool) -> Result<V, TokError> {
+    let mut r = Replayer { toks, pos: 0, human };
     let v = V::deserialize(&mut r)?;
     if r.pos != toks.len() {
         return Err(TokError(format!("trailing tokens at {}", r.pos)));
@@ -192,6 +204,9 @@ impl<'t> Replayer<'t> {
 }
 impl<'de, 'a, 't: 'de> de::Deserializer<'de> for &'a mut Replayer<'t> {
     type Error = TokError;
+    fn is_human_readable(&self) -> bool {
+        self.human
+    }
     fn deserialize_any<V: Visitor<'de>>(self, v: V) -> Result<V::Value, TokError> {
         match self.peek() {
             Some(Tok::Struct(..)) => self.deserialize_map(v),
